@@ -55,6 +55,26 @@ def gen_runs(prop, tier, seed):
     return runs
 
 
+def shape_runs(tier, seed):
+    """spec -> impl for the painter: every forest of Painter.tla's exhaustive
+    instance (depth <= 3, fan-out <= 2; depth <= 2, fan-out <= 3) becomes a
+    program of that shape, listed / tested / benchmarked by the real runner."""
+    rnd = random.Random(seed + 4242)
+    shapes = progs.forests(3, 2) + progs.forests(2, 3)
+    if tier == "quick":
+        shapes = rnd.sample(shapes, 60)
+    runs = []
+    for k, forest in enumerate(shapes):
+        prog = progs.program_from_shape(forest, f"shape{k}")
+        action = rnd.choice(["list", "test", "bench"])
+        argv = {"list": ["--list"], "test": ["--test"], "bench": ["--bench", "--timer", "tsc"]}[action]
+        cfg = {"action": action, "sort": "kind", "reverse": False, "run_ignored": "no", "filters": [],
+               "argv": argv, "env": {}, "builder": [], "entry": "main",
+               "src_after": {}, "src_cli": {}, "src_env": {}, "src_before": {}}
+        runs.append((prog, cfg, f"C20-shape{k}"))
+    return runs
+
+
 def exact_roundtrip_runs(records, by_name, rnd, limit):
     """C14: feed listed paths back as the only --exact filter of a test run."""
     out = []
@@ -209,6 +229,23 @@ def run(prop, tier, seed):
         res.notes.append(f"runs with non-zero exit and no recorded panic: {bad_rc[:5]}")
     validate_runs(res, prop, path, "impl->spec", by_name)
 
+    # macro level of the same property (generated crates using the real attribute macros, back-end M)
+    if prop == "C17" and os.path.exists(os.path.join(V.ROOT, "lib", "MACRO_READY")):
+        import check_macro
+        check_macro.run_macro_level(res, prop, tier, seed)
+
+    if prop == "C20":
+        for cfg in (["Painter_q", "Painter_q2"] if tier == "quick" else ["Painter_q", "Painter_q2", "Painter_t"]):
+            r = V.tlc_mc("MC_Painter", cfg, workers=8)
+            res.add_mc(cfg, r)
+            if not r.get("ok"):
+                raise V.ToolError(f"MC_Painter {cfg}: {r.get('violated') or r.get('error')}")
+        sr = shape_runs(tier, seed)
+        by_name.update({name: (prog, cfg) for prog, cfg, name in sr})
+        p3, recs3 = execute(sr, f"{prop}.shapes")
+        res.extra["painter_shapes_replayed"] = len(sr)
+        validate_runs(res, prop, p3, "spec->impl:painter-shapes", by_name)
+
     if prop == "C14" and not res.violations:
         rnd = random.Random(seed + 77)
         rt = exact_roundtrip_runs(recs, by_name, rnd, 40 if tier == "quick" else 400)
@@ -238,6 +275,9 @@ def run(prop, tier, seed):
 
 def replay(prop, path):
     obj = json.load(open(path))
+    if (obj.get("program") or {}).get("backend") == "M":
+        import check_macro
+        return check_macro.replay(prop, path)
     res = V.Result(prop, "quick", 0)
     rec = progs.run_program(obj["program"], obj["config"], "replay")
     p = os.path.join(V.WORK, f"{prop}.replay.ndjson")
